@@ -926,6 +926,21 @@ def gen_whole(tier: str, rng: random.Random) -> Tuple[List[Tuple[Grammar, List[T
         tops = ['plain', TOPS[1 + si % (len(TOPS) - 1)]] if quick else ['plain', 'seqd', TOPS[2 + si % (len(TOPS) - 2)]]
         inputs = corpus.sample_inputs(rng, alpha, 3, 50 if quick else 120, longer=4)
         add(g, roots[:3], tops, inputs, 'systematic:' + meta['kind'])
+    # leaf rules with a look-ahead of their own (multi-byte code points, digit loops, counted repetitions, keywords, …): over a buffer
+    # they must ask for exactly as many bytes as they read
+    zoo = [z for z in corpus.atom_zoo() if z[0] in ('u8range', 'u8not_range', 'max8', 'max25', 'max16', 'max1', 'rom12', 'rom23', 'string3', 'istring', 'bytes2',
+                                                   'require2', 'keyword', 'identifier', 'two', 'three', 'pred_and', 'pred_or', 'pred_not', 'eolf', 'ellipsis', 'ranges')]
+    always = ('u8range', 'u8not_range', 'max25', 'rom23')
+    pick = [z for z in zoo if z[0] in always] + [z for j, z in enumerate(z for z in zoo if z[0] not in always) if not quick or (j + common.seed()) % 4 == 0]
+    zalpha = [49, 50, 53, 97, 0xE2, 0x82, 0xAC, 0xC3, 0xA9, 46, 33]
+    for zi, (zname, x) in enumerate(pick):
+        gz = Grammar(f"c07z{zi}")
+        r0 = gz.rule(P('seq', x, P('opt', x)))
+        r1 = gz.rule(x)
+        r2 = gz.rule(P('star', P('seq', x, P('one', C(97)))))
+        gz.resolve()
+        zin = [d for d in corpus.sample_inputs(rng, zalpha, 3, 40 if quick else 160, longer=6)] + [b'\xe2\x82\xac', b'1\xe2\x82\xac\xe2\x82\xaca', b'255a256', b'11a111a1', b'...']
+        add(gz, [r0.id, r1.id, r2.id], ['plain', 'seqd', 'stard'], zin, 'leaf:' + zname)
     # fixed: `everything` (F12), `bytes`, `eolf`, `istring` — atoms the generators above do not produce
     gx = Grammar('c07x0')
     a0 = gx.rule(P('seq', P('everything'), P('eof')))
